@@ -18,7 +18,7 @@ Import ListNotations.
 Require Import V.Model.Awaitify V.Model.AwaitifyCase.
 Local Open Scope nat_scope.
 """
-ITER_FLAVOURS = ["list", "getitem", "sync_iter", "async_gen", "async_class"]
+ITER_FLAVOURS = ["list", "getitem", "sync_iter", "async_gen", "async_class", "async_class_noclose"]
 CALL_FLAVOURS = ["def", "async", "partial", "object", "awaitobj", "awaitclass"]
 
 
@@ -41,6 +41,8 @@ def flavoured_source(ctx, idx, items, fl):
         return builtins.iter(list(items))
     if fl == "async_class":
         return Src(ctx, idx, items)
+    if fl == "async_class_noclose":
+        return SrcNC(ctx, idx, items)          # a class-based async iterator that only has __aiter__ / __anext__
     its = list(items)
 
     async def gen():
@@ -533,7 +535,7 @@ def run(tier, seed):
                 its = _items(kind)
 
                 async def run_it():
-                    return [x async for x in tool(flavoured_source(None, 0, its, fl) if fl != "async_class" else flavoured_source(None, 0, its, "async_gen"))]
+                    return [x async for x in tool(flavoured_source(None, 0, its, fl) if not fl.startswith("async_class") else flavoured_source(None, 0, its, "async_gen"))]
                 try:
                     res[fl] = repr(drive(run_it()))
                 except BaseException as e:  # noqa
